@@ -667,7 +667,6 @@ func (g *confGen) config() *configs.SchedulerConfig {
 	return c
 }
 
-
 // ---- targeted stream: limit chains ----
 // A clean three or four level tree whose only interesting content is user / group limits placed on NON adjacent levels:
 // an ancestor with a named entry and/or a wildcard entry (the wildcard group needs a named group in the same queue),
@@ -739,7 +738,10 @@ func (g *confGen) limitScenario() *configs.SchedulerConfig {
 		cg = []string{name}
 	}
 	pickApps := func() uint64 {
-		c := []uint64{0, 0, 1, a1, a1 + 1, w, w + 1}
+		if r.Chance(30) {
+			return 0 // no application count: unlimited
+		}
+		c := []uint64{0, 1, a1, a1 + 1, w, w + 1}
 		if a1 > 1 {
 			c = append(c, a1-1)
 		}
